@@ -259,6 +259,24 @@ impl Stream for CodecStream {
             }
             // typed round trip at the boundaries of the integer fields: signed announce timestamp (u64),
             // mutable seq / cas (i64)
+            // a transaction id travels as a byte string: whatever width the encoder picks, the decoder reads the id back
+            ["enctid", n] => {
+                let n: u32 = n.parse().expect("tid");
+                let m = Msg::new(n, None, None, MessageType::Request(dht::RequestSpecific { requester_id: Id::from_bytes([1; 20]).expect("id"), request_type: RequestTypeSpecific::Ping }), false);
+                let bytes = m.to_bytes().expect("enc");
+                match guarded(|| Msg::from_bytes(&bytes)) {
+                    Ok(Ok(m2)) => {
+                        if m2.transaction_id() != n {
+                            out.violation("C10", "tid-roundtrip", format!("transaction id {n} is encoded as {} and read back as {}", hex(&bytes), m2.transaction_id()));
+                        }
+                        format!("{} -> {}", hex(&bytes), m2.transaction_id())
+                    }
+                    _ => {
+                        out.violation("C10", "tid-roundtrip", format!("transaction id {n} is encoded as {}, which the decoder rejects", hex(&bytes)));
+                        format!("{} -> err", hex(&bytes))
+                    }
+                }
+            }
             ["encint", t, seq, cas] => {
                 let t: u64 = t.parse().expect("t");
                 let seq: i64 = seq.parse().expect("seq");
@@ -673,6 +691,10 @@ pub fn generate(out: &mut Out, seed: u64, thorough: bool) {
     for (name, text) in BEP_EXAMPLES {
         out.run(&mut st, format!("bep {name} {}", hex(text.as_bytes())));
         out.count("gen:bep-example");
+    }
+    for n in [0u32, 1, 255, 256, 65_535, 65_536, 65_537, 1_000_000, 16_777_215, 16_777_216, 16_777_217, 0x0100_0001, u32::MAX - 1, u32::MAX] {
+        out.run(&mut st, format!("enctid {n}"));
+        out.count("gen:typed-tid");
     }
     for (name, bytes) in bep44_examples() {
         out.run(&mut st, format!("bep {name} {}", hex(&bytes)));
